@@ -234,7 +234,7 @@ def families(tier):
         for b in bodies:
             fams.append(FlatBody(b, pose, params))
         fams.append(PointList(pose))
-    return fams
+    return A.with_int_mode(fams, tier)
 
 
 def run(tier, seed):
